@@ -86,6 +86,11 @@ public:
 		return *this;
 	}
 	bitset &operator<<=(size_t pos) noexcept {
+		// Shifting by N or more leaves no bit set (and the word arithmetic
+		// below would index outside of the buffer).
+		if (pos >= N)
+			return reset();
+
 		if (pos != 0) {
 			size_t wshift = pos / 64;
 			size_t offset = pos % 64;
@@ -109,6 +114,9 @@ public:
 	}
 
 	bitset &operator>>=(size_t pos) noexcept {
+		if (pos >= N)
+			return reset();
+
 		if (pos != 0) {
 			const size_t wshift = pos / 64;
 			const size_t offset = pos % 64;
